@@ -90,6 +90,40 @@ def _owns_no_element(ctx, tid, depth=0):
     return False
 
 
+def _pointer_part_unused(b, local):
+    """the (NonNull<u8>, Layout) pair in `local` is only ever read through its field 1"""
+    def bad(pl):
+        if pl["local"] != local:
+            return False
+        pj = pl["proj"]
+        return not (pj and pj[0]["k"] == "field" and pj[0]["i"] == 1)
+
+    def ops_of(x):
+        out = []
+        if isinstance(x, dict):
+            if x.get("k") in ("copy", "move") and "place" in x:
+                out.append(x["place"])
+            for k, v in x.items():
+                if k in ("place",) and isinstance(v, dict) and "local" in v and x.get("k") not in ("copy", "move", "assign"):
+                    out.append(v)
+                elif isinstance(v, (dict, list)) and k not in ("span", "dest"):
+                    out += ops_of(v)
+        elif isinstance(x, list):
+            for v in x:
+                out += ops_of(v)
+        return out
+    for bb in b.reachable():
+        if b.is_cleanup(bb):
+            continue
+        for st in b.stmts(bb):
+            if st["k"] == "assign" and any(bad(pl) for pl in ops_of(st["rv"])):
+                return False
+        t = b.term(bb)
+        if any(bad(pl) for pl in ops_of({k: v for k, v in t.items() if k not in ("dest", "span")})):
+            return False
+    return True
+
+
 def scan_own(ctx, R, fixture=False):
     n_hits = 0
     for b in ctx.facts.bodies.values():
@@ -99,12 +133,20 @@ def scan_own(ctx, R, fixture=False):
                 continue
             if c.t["span"]["exp"] and not c.t["span"]["file"].startswith("src/"):
                 continue
+            if c.t["span"]["exp"] and (c.name or "").startswith(("core::fmt::Arguments::", "core::fmt::rt::")) \
+                    and any(m in ("format_args", "write", "writeln", "format_args_nl", "panic", "assert", "unreachable", "debug_assert", "assert_eq", "assert_ne",
+                                  "debug_assert_eq", "debug_assert_ne", "todo", "unimplemented", "const_format_args")
+                            or m.endswith("panic_2021") or m.endswith("panic_2015") for m in c.t["span"].get("macros", [])):
+                continue      # the argument packing that format_args! expands to: compiler-generated, not an unsafe operation of griddle's
             what = FORBIDDEN_OWN[nm]
             if what == "mem::forget" and not fixture:
                 aty = c.args[0]["place"]["ty"] if c.args[0]["k"] in ("copy", "move") else None
                 if aty is not None and _owns_no_element(ctx, aty):
                     R.inst(fn=b.path, site=c.where(), primitive=what, verdict="ok: forgets a guard that owns no element (%s)" % ctx.facts.types[aty]["s"])
                     continue
+            if what == "allocation_info" and not fixture and c.dest is not None and not c.dest["proj"] and _pointer_part_unused(b, c.dest["local"]):
+                R.inst(fn=b.path, site=c.where(), primitive=what, verdict="ok: only the Layout half of (pointer, layout) is read; the allocation's address goes nowhere")
+                continue
             n_hits += 1
             R.inst(fn=b.path, site=c.where(), primitive=what, verdict="VIOLATION" if not fixture else "control")
             if not fixture:
@@ -195,6 +237,11 @@ def rule_v_unsafe(ctx):
                 continue
             if c.t["span"]["exp"] and not c.t["span"]["file"].startswith("src/"):
                 continue
+            if c.t["span"]["exp"] and (c.name or "").startswith(("core::fmt::Arguments::", "core::fmt::rt::")) \
+                    and any(m in ("format_args", "write", "writeln", "format_args_nl", "panic", "assert", "unreachable", "debug_assert", "assert_eq", "assert_ne",
+                                  "debug_assert_eq", "debug_assert_ne", "todo", "unimplemented", "const_format_args")
+                            or m.endswith("panic_2021") or m.endswith("panic_2015") for m in c.t["span"].get("macros", [])):
+                continue      # the argument packing that format_args! expands to: compiler-generated, not an unsafe operation of griddle's
             n += 1
             nm = c.tname
             lc = c.local_callee()
